@@ -101,17 +101,16 @@ def flush (c : Chan) : Chan :=
   let mv := min c.sinkBytes (c.cfg.pipeCap - c.pipeFill)
   { c with sinkBytes := c.sinkBytes - mv, pipeFill := c.pipeFill + mv }
 
-/-- Inbound half of `poll_next`, repeated by the `start()` loop: reserve a slot on the shared channel
-BEFORE reading, read one frame, deliver. Result flag: the connection must close. -/
-def readInbound (c : Chan) : Nat → Chan × Bool
-  | 0 => (c, false)
-  | fuel + 1 =>
-    if c.notifQ.length ≥ c.cfg.notifCap then (c, false)
-    else match c.inQ with
-      | [] => (c, c.inClosed)
-      | m :: rest =>
-        if max m.size 3 > c.cfg.maxSize then ({ c with inQ := rest }, true)
-        else readInbound { c with inQ := rest, notifQ := c.notifQ ++ [m], inRead := c.inRead ++ [m] } fuel
+/-- Inbound half of one `poll_next`: reserve a slot on the shared channel BEFORE reading, read one frame.
+Result: `none` = pending, `some true` = the connection must close, `some false` = one notification delivered
+(the `start()` loop then calls `poll_next` again). -/
+def readOne (c : Chan) : Chan × Option Bool :=
+  if c.notifQ.length ≥ c.cfg.notifCap then (c, none)
+  else match c.inQ with
+    | [] => (c, if c.inClosed then some true else none)
+    | m :: rest =>
+      if max m.size 3 > c.cfg.maxSize then ({ c with inQ := rest }, some true)
+      else ({ c with inQ := rest, notifQ := c.notifQ ++ [m], inRead := c.inRead ++ [m] }, some false)
 
 /-- The notification the outbound loop handles next: the parked one, else the head of a non-empty queue —
 if both are non-empty the next element of `picks` decides (`0` = sync; no element left = sync). -/
@@ -137,32 +136,44 @@ def pushOut (c : Chan) (p : Bool × Msg) : Chan :=
   if p.1 then { c with sBuf := c.sBuf ++ [p.2], sinkBytes := c.sinkBytes + p.2.bytes }
   else { c with aBuf := c.aBuf ++ [p.2], sinkBytes := c.sinkBytes + p.2.bytes }
 
-/-- The outbound loop of `poll_next`. Result flag: the connection closed (`start_send` refused an
-oversized notification; whatever this poll handed to the substream before is never flushed). -/
-def outLoop (c : Chan) (picks : List Nat) : Nat → Chan × Bool
-  | 0 => (c, false)
+/-- The outbound loop of `poll_next`. Result: the connection closed (`start_send` refused an oversized
+notification; whatever this poll handed to the substream before is never flushed), and the unused choices. -/
+def outLoop (c : Chan) (picks : List Nat) : Nat → Chan × Bool × List Nat
+  | 0 => (c, false, picks)
   | fuel + 1 =>
     match nextNotif c picks with
-    | none => (c, false)
+    | none => (c, false, picks)
     | some (p, c1, picks1) =>
       if (pollReady c1).2 then
-        if max p.2.size 3 > c.cfg.maxSize then (closeTask (pollReady c1).1, true)
+        if max p.2.size 3 > c.cfg.maxSize then (closeTask (pollReady c1).1, true, picks1)
         else outLoop (pushOut (pollReady c1).1 p) picks1 fuel
-      else ({ (pollReady c1).1 with parked := some p }, false)
+      else ({ (pollReady c1).1 with parked := some p }, false, picks1)
 
-/-- The rest of `poll_next` after the outbound loop: flush (a pending flush does not stop the poll), then the
-inbound half. -/
-def afterOut (c : Chan) : Chan × Option Bool :=
-  if (readInbound (flush c) 4096).2 then (closeTask (readInbound (flush c) 4096).1, some true)
-  else ((readInbound (flush c) 4096).1, none)
+/-- `poll_next`: the outbound loop, a flush (a pending flush does not stop the poll), the inbound half. -/
+def pollNext (c : Chan) (picks : List Nat) : Chan × Option Bool × List Nat :=
+  if (outLoop c picks (c.syncQ.length + c.asyncQ.length + 1)).2.1 then
+    ((outLoop c picks (c.syncQ.length + c.asyncQ.length + 1)).1, some true,
+      (outLoop c picks (c.syncQ.length + c.asyncQ.length + 1)).2.2)
+  else
+    ((readOne (flush (outLoop c picks (c.syncQ.length + c.asyncQ.length + 1)).1)).1,
+     (readOne (flush (outLoop c picks (c.syncQ.length + c.asyncQ.length + 1)).1)).2,
+     (outLoop c picks (c.syncQ.length + c.asyncQ.length + 1)).2.2)
+
+/-- The `start()` loop within one poll of the task: `poll_next` again after every delivered notification — the
+whole of it, so a parked notification is retried each time. -/
+def taskLoop (c : Chan) (picks : List Nat) : Nat → Chan × Option Bool
+  | 0 => (c, none)
+  | fuel + 1 =>
+    match (pollNext c picks).2.1 with
+    | none => ((pollNext c picks).1, none)
+    | some true => (if (pollNext c picks).1.alive then closeTask (pollNext c picks).1 else (pollNext c picks).1, some true)
+    | some false => taskLoop (pollNext c picks).1 (pollNext c picks).2.2 fuel
 
 /-- One poll of the connection task; `picks` = the choices of `select!`. Result: `some notify` if the task ended. -/
 def taskPoll (c : Chan) (picks : List Nat) : Chan × Option Bool :=
   if !c.alive then (c, none)
   else if c.signalled then (closeTask c, some false)
-  else if (outLoop c picks (c.syncQ.length + c.asyncQ.length + 1)).2 then
-    ((outLoop c picks (c.syncQ.length + c.asyncQ.length + 1)).1, some true)
-  else afterOut (outLoop c picks (c.syncQ.length + c.asyncQ.length + 1)).1
+  else taskLoop c picks 4096
 
 def partialOk (c : Chan) (avail : Nat) : Bool :=
   avail = 0 || (match c.sBuf with | m :: _ => avail < m.bytes | [] => false) ||
